@@ -93,7 +93,8 @@ def ladder_docs():
         add("parameter-length", L, b"a={ [[" + b"p" * L + b"] x=1 ] [[!" + b"p" * L + b"] y=2 ] }", [("first", "fl", 2)])
     # ---------------------------------------------------------------- array / remainder lengths
     for n in lad(0, 4097) + [65535, 65536]:
-        add("array-length", n, b"a={ " + b"1 " * n + b"}", [("first", "n", n)])
+        # (the two longest: empty strings, 3 bytes of JSON per element under every narrowing mode: below the harness' 256 KiB bound)
+        add("array-length", n, b"a={ " + (b"1 " if n <= 4097 else b'"" ') * n + b"}", [("first", "n", n)])
     for n in (0, 1, 3, 4, 17, 300):
         add("header-array-length", n, b"a=rgb{ " + b"1 " * n + b"}", [])
     for n in (1, 2, 3, 17, 129, 300, 1025):
